@@ -488,6 +488,18 @@ inline void GenScalar(Source& s, Lane l, DynNode& n, const GenCfg& g)
 	case K::Str16: n.s16 = ToUtf16(GenText(s, l, tp, g.maxStr / 2)); break;
 	case K::Str32: n.s32 = GenText(s, l, tp, g.maxStr / 4); break;
 	case K::WStr: { auto t = GenText(s, l, tp, g.maxStr / 4); n.ws.assign(t.begin(), t.end()); break; }
+	case K::Ts:
+	{
+		// around the epoch, before it (timestamp 96 in MsgPack), far future, with and without sub-second parts; inside +-250 years
+		static const int64_t bases[] = { 0, 1, -1, 1700000000ll, -1700000000ll, 4294967295ll, 4294967296ll, 17179869183ll, 17179869184ll, -7000000000ll, 7000000000ll };
+		int64_t secs = s.pick(l, bases) + s.range(l, -3, 3);
+		if (s.chance(l, 1, 3)) secs = GenSigned(s, l, 33);
+		const int64_t sub = s.chance(l, 1, 2) ? 0 : static_cast<int64_t>(s.draw(l, 1000000000));
+		if (secs > 7800000000ll) secs = 7800000000ll;
+		if (secs < -7800000000ll) secs = -7800000000ll;
+		n.tp = std::chrono::system_clock::time_point(std::chrono::duration_cast<std::chrono::system_clock::duration>(std::chrono::seconds(secs) + std::chrono::nanoseconds(sub)));
+		break;
+	}
 	case K::Bin: { uint32_t len = GenLength(s, l, g.maxStr); if (len == 0 && !g.allowEmptyContainers) len = 1; n.bin.resize(len); for (auto& b : n.bin) b = static_cast<unsigned char>(s.draw(l, 256)); break; }
 	default: break;
 	}
@@ -495,7 +507,7 @@ inline void GenScalar(Source& s, Lane l, DynNode& n, const GenCfg& g)
 
 inline K DrawLeafKind(Source& s, Lane l, const GenCfg& g)
 {
-	static const K leafs[] = { K::I32, K::Str, K::Bool, K::I8, K::U8, K::I16, K::U16, K::U32, K::I64, K::U64, K::F32, K::F64, K::Null, K::Str16, K::Str32, K::WStr, K::Bin };
+	static const K leafs[] = { K::I32, K::Str, K::Bool, K::I8, K::U8, K::I16, K::U16, K::U32, K::I64, K::U64, K::F32, K::F64, K::Null, K::Str16, K::Str32, K::WStr, K::Bin, K::Ts };
 	for (int attempt = 0; attempt < 16; ++attempt)
 	{
 		const K k = s.pick(l, leafs);
